@@ -627,3 +627,51 @@ def impl_parse_many(case, scratch):
 def impl_detect_loop(case, scratch):
     from wikitextprocessor.core import detect_expand_template_loop
     return {"outcome": "ok", "outs": [bool(detect_expand_template_loop(list(s))) for s in case["stacks"]]}
+
+
+# ---------------------------------------------------------------- C01
+def impl_merge(case, scratch):
+    """_parser_merge_str_children on constructed child lists: strings and placeholder nodes"""
+    from wikitextprocessor import parser as P
+    ctx = parse_ctx(scratch)
+    ctx.start_page("Tt")
+    outs = []
+    for lst in case["lists"]:
+        root = P.WikiNode(P.NodeKind.ROOT, 0)
+        kids = []
+        for x in lst:
+            if isinstance(x, str):
+                kids.append(x)
+            else:
+                n = P.WikiNode(P.NodeKind.BOLD, 0)
+                n.sarg = str(x)
+                kids.append(n)
+        root.children = kids
+        ctx.parser_stack = [root]
+        P._parser_merge_str_children(ctx)
+        outs.append([c if isinstance(c, str) else int(c.sarg) for c in root.children])
+        ctx.parser_stack = []
+    return {"outcome": "ok", "outs": outs}
+
+
+def extract_test_pages():
+    """String literals passed to parse()/expand() in the repository's own tests (mutation seeds)."""
+    import ast
+    from pathlib import Path
+    out = []
+    for f in ("tests/test_parser.py", "tests/test_node_expand.py"):
+        p = Path("/repo") / f
+        if not p.exists():
+            continue
+        for n in ast.walk(ast.parse(p.read_text())):
+            if isinstance(n, ast.Call) and isinstance(n.func, ast.Attribute) and n.func.attr in ("parse", "expand", "run") \
+                    and n.args and isinstance(n.args[-1], ast.Constant) and isinstance(n.args[-1].value, str):
+                out.append(n.args[-1].value)
+            if isinstance(n, ast.Call) and n.args and isinstance(n.args[0], ast.Constant) and isinstance(n.args[0].value, str) \
+                    and len(n.args[0].value) > 3 and isinstance(n.func, ast.Attribute) and n.func.attr == "parse":
+                out.append(n.args[0].value)
+    return sorted(set(out))
+
+
+def impl_test_pages(case, scratch):
+    return {"outcome": "ok", "pages": extract_test_pages()}
